@@ -163,6 +163,40 @@ func c11body(s c11scn, obs *string, gotErr *bool) func() {
 			} else {
 				*obs = ref.Newick()
 			}
+		case "cli-compare", "cli-wcompare", "cli-binary", "cli-fbp", "cli-tbe":
+			// the real command, in-process: file -> reader goroutine -> worker pool -> printing loop of the command
+			var sb strings.Builder
+			for _, pi := range s.Seq {
+				if pi == 5 {
+					sb.WriteString("((A:1,B:1):1,(C:1,D:1:1,E:1);\n") // malformed tree
+				} else {
+					sb.WriteString(c11pool[pi] + "\n")
+				}
+			}
+			files := map[string]string{"ref.nw": c11ref + "\n", "in.nw": sb.String()}
+			var args []string
+			switch s.Fam {
+			case "cli-compare":
+				args = []string{"compare", "trees", "-i", "@/ref.nw", "-c", "@/in.nw"}
+			case "cli-wcompare":
+				args = []string{"compare", "trees", "-i", "@/ref.nw", "-c", "@/in.nw", "--weighted"}
+			case "cli-binary":
+				args = []string{"compare", "trees", "-i", "@/ref.nw", "-c", "@/in.nw", "--binary"}
+			case "cli-fbp":
+				args = []string{"compute", "support", "fbp", "-i", "@/ref.nw", "-b", "@/in.nw", "--silent"}
+			case "cli-tbe":
+				args = []string{"compute", "support", "tbe", "-i", "@/ref.nw", "-b", "@/in.nw", "--silent"}
+			}
+			args = append(args, "-t", fmt.Sprint(s.Workers), "--seed", "1")
+			var res cliRun
+			cliBody(args, "", files, nil, &res)()
+			lines := strings.Split(strings.TrimSpace(res.Stdout), "\n")
+			sort.Strings(lines)
+			*obs = strings.Join(lines, "|")
+			if res.Err != "" {
+				*gotErr = true
+				*obs = "error"
+			}
 		case "pipeline":
 			// text -> ReadMultiTrees (reader goroutine) -> Compare
 			var sb strings.Builder
@@ -417,6 +451,18 @@ func c11scenarios(quick bool) []c11scn {
 			add(c11scn{Fam: fam, Seq: []int{1, 2}, Workers: 2, Bound: 2, Switch: 0, NumCPU: 16})
 		}
 	}
+	// the commands themselves (in-process CLI): an erroneous tree at each position of the compared / bootstrap file
+	for _, fam := range []string{"cli-compare", "cli-wcompare", "cli-binary", "cli-fbp", "cli-tbe"} {
+		for _, w := range []int{1, 2} {
+			for _, sq := range [][]int{{1, 2}, {5, 0}, {0, 5}, {0, 5, 1}, {3, 0}, {0, 3}, {4}} {
+				b := 0
+				if w == 2 && len(sq) == 2 && !quick {
+					b = 1
+				}
+				add(c11scn{Fam: fam, Seq: sq, Workers: w, Bound: b, Switch: 1, NumCPU: 16})
+			}
+		}
+	}
 	// hashmap: 2-3 threads x 1-2 operations on keys forced to collide in a capacity-1 map
 	opsMenu := []int{0, 1, 2, 3, 4}
 	var hm func(workers, per int, bound int)
@@ -549,6 +595,9 @@ func c11explore(c *Ctx, s c11scn) {
 	rr := mcrt.Run(mcrt.Config{NumCPU: s.NumCPU, NoSched: true, Fuel: 5_000_000}, c11body(refS, &refObs, &refErr))
 	c.Execs++
 	bad := c11badKind(s)
+	if strings.HasPrefix(s.Fam, "cli-") && rr.Verdict == mcrt.VExit && rr.ExitCode != 0 {
+		rr.Verdict, refObs, refErr = mcrt.VDone, "error", true
+	}
 	if rr.Verdict != mcrt.VDone {
 		c.Violate(fmt.Sprintf("C11/%s/single-thread/%s/%s", s.Fam, c11verdictKey(&rr), bad),
 			fmt.Sprintf("%s: the single-threaded run itself does not terminate normally: %s", s.label(), verdictStr(rr)), refS)
@@ -568,7 +617,10 @@ func c11explore(c *Ctx, s c11scn) {
 		}
 		v := s
 		v.Choices = choices
-		if r.Verdict == mcrt.VLeak {
+		if strings.HasPrefix(s.Fam, "cli-") && r.Verdict == mcrt.VExit && r.ExitCode != 0 {
+			// the command ended the process with an error message and a non-zero status: the error reached the caller
+			obs, gotErr = "error", true
+		} else if r.Verdict == mcrt.VLeak {
 			// the caller has returned; a producer or worker left blocked behind it is a goroutine leak,
 			// which the property does not speak about: judge the results like those of a completed run
 			c.Count("executions_with_leaked_goroutines", 1)
@@ -632,6 +684,9 @@ func c11racePass(c *Ctx) {
 	var n int64
 	fmt.Sscan(m[1], &n)
 	c.Count("race_pass_executions", n)
+	if mm := regexp.MustCompile(`RACEPASS executions=\d+ stalls=(\d+)`).FindStringSubmatch(string(out)); mm != nil && mm[1] != "0" {
+		c.Note("race_pass_stalls", mm[1]+" scenario runs did not finish within 90 s of wall clock on the free-running race build and were abandoned (no verdict is derived from this)")
+	}
 	for _, rep := range reports[1:] {
 		// first gotree frame of each of the two accesses
 		var fns []string
@@ -660,6 +715,7 @@ func c11racePass(c *Ctx) {
 // c11raceMain runs the scenario bodies free (pass-through mode, real goroutines) - only in the -race build.
 func c11raceMain() {
 	n := 0
+	stalls := 0
 	deadline := time.Now().Add(60 * time.Second)
 	for rep := 0; rep < 30 && time.Now().Before(deadline); rep++ {
 		for _, s := range c11scenarios(true) {
@@ -679,25 +735,28 @@ func c11raceMain() {
 				select {
 				case <-done:
 					n++
-				case <-time.After(20 * time.Second):
-					fmt.Println("RACEPASS hang in", t.label())
-					os.Exit(3)
+				case <-time.After(90 * time.Second):
+					// not an oracle: termination is decided by the scheduler's deadlock verdict, never by wall clock.
+					// The stalled goroutines are abandoned and the pass goes on.
+					fmt.Println("\nRACEPASS stalled:", t.label())
+					stalls++
 				}
 			}
 		}
 	}
-	fmt.Printf("RACEPASS executions=%d\n", n)
+	fmt.Printf("\nRACEPASS executions=%d stalls=%d\n", n, stalls)
 }
 
 func init() {
 	register(&Prop{
 		ID: "C11",
-		Rule: "closed scenarios (driver feeds 1-3 trees from a pool incl. erroneous / taxon-mismatched / duplicate-tip trees at every position into Compare, CompareWeighted, FBP, TBE, ReadMultiTrees->Compare with 1-3 workers; hashmap with 2-3 threads x 1-2 ops on colliding keys) x every goroutine schedule within the deviation bound " +
+		Rule: "closed scenarios (driver feeds 1-3 trees from a pool incl. erroneous / taxon-mismatched / duplicate-tip trees at every position into Compare, CompareWeighted, FBP, TBE, ReadMultiTrees->Compare with 1-3 workers; the commands `compare trees [--weighted|--binary]`, `compute support fbp|tbe` run in-process with -t 1..2 on files with a malformed / taxon-mismatched tree at each position; hashmap with 2-3 threads x 1-2 ops on colliding keys) x every goroutine schedule within the deviation bound " +
 			"(scheduling points: every channel, mutex, RWMutex, WaitGroup, atomic operation, goroutine start, and a yield before each statement of a worker body that touches a variable written by a goroutine; statement-level yields inside hashmap); " +
 			"oracle per execution: terminates normally, per-tree records identical to the single-threaded run, error reaches the caller, hashmap history linearizable w.r.t. a plain map; non-trivial = scenario with >= 2 workers and >= 2 executions",
-		Require:     []string{"valid_results:compare", "valid_results:wcompare", "valid_results:fbp", "valid_results:tbe", "valid_results:pipeline", "litmus_programs", "race_pass_executions"},
+		Require:     []string{"valid_results:compare", "valid_results:wcompare", "valid_results:fbp", "valid_results:tbe", "valid_results:pipeline", "valid_results:cli-compare", "valid_results:cli-wcompare", "valid_results:cli-binary", "valid_results:cli-fbp", "valid_results:cli-tbe", "litmus_programs", "race_pass_executions"},
 		Assumptions: []string{"channel/mutex/WaitGroup model of mcrt (validated by the litmus suite)", "plain memory accesses are sequentially consistent between scheduling points; unsynchronised accesses are the business of the separate free-running -race pass", "no partial-order reduction"},
 		Run: func(c *Ctx) {
+			defer cliCleanup()
 			if c.Shard == 0 {
 				c11litmus(c)
 			}
@@ -719,6 +778,7 @@ func init() {
 			}
 		},
 		Replay: func(c *Ctx, raw json.RawMessage) {
+			defer cliCleanup()
 			var s c11scn
 			if err := json.Unmarshal(raw, &s); err != nil || s.Fam == "" {
 				fmt.Println("not a schedule replay:", string(raw))
